@@ -26,7 +26,8 @@ ASSUMPTIONS = ['relation_paths(end=e) (undocumented parameter) yields the simple
                "closure() identifies entities by id string, which is exact inside one family"]
 FLOORS = {'*': {'relquery.compared': 3000, 'closure.compared': 500, 'paths.compared': 500}}
 N = {'quick': 40, 'thorough': 1500}
-TYPES_SS = ['hypernym', 'hyponym', 'similar', 'also', 'made_up_rel', 'instance_hypernym', 'mero_part', 'holo_part']
+TYPES_SS = ['hypernym', 'hyponym', 'similar', 'also', 'made_up_rel', 'instance_hypernym', 'mero_part', 'holo_part', 'meronym', 'holonym',
+            'instance_hyponym', 'mero_substance', 'holo_member']
 TYPES_S = ['antonym', 'also', 'derivation', 'similar', 'made_up_rel']
 TYPES_SSS = ['other', 'domain_topic', 'made_up_rel']
 QUIRKS = {'nav-by-id': None, 'tags-unowned': None, 'ext-forms': None}
